@@ -27,7 +27,7 @@ set_option linter.unusedVariables false
 /-- `TDDTerminal` (`False`, `Unknown`, `True`, in the order of the Rust enum). -/
 inductive Tri where
   | f | u | t
-  deriving DecidableEq, Repr, Inhabited
+  deriving DecidableEq, Repr, Inhabited, Hashable
 
 namespace Tri
 
@@ -131,7 +131,7 @@ end BinOp
 inductive TD where
   | leaf : Tri → TD
   | node : Nat → TD → TD → TD → TD
-  deriving DecidableEq, Repr, Inhabited
+  deriving DecidableEq, Repr, Inhabited, Hashable
 
 namespace TD
 
@@ -425,6 +425,57 @@ decreasing_by
 /-- `TVLFunction::not_edge_owned` (default, as fixed): wrap the owned edge in an `EdgeDropGuard`
 (dropped on return), forward to `not_edge`. On trees: the same function as `applyNot`. -/
 def notEdgeOwned (f : TD) : TD := applyNot f
+
+
+/-! ## reordering (specification level)
+
+`oxidd_reorder::set_var_order` changes the level of every variable and rewrites the stored nodes
+by adjacent level swaps. At the tree level its *specified* effect on a handle is: the same
+function of the variables, as the normal form for the new order. `reorderTree` computes that
+tree with the model's own constructor `mk`: bottom-up, every node `(l: a, b, c)` is recomposed
+as the three-way case distinction on the new level `π l` over the rebuilt cofactors. -/
+
+/-- `compose l a b c`: the function that is `a` where level `l` is true, `b` where it is unknown
+and `c` where it is false — a ternary Shannon expansion over the levels above `l` (like
+`apply_ite_rec`), closed by `mk l a b c` once `l` is the top-most level. -/
+def compose (l : Nat) (a b c : TD) : TD :=
+  match hl : lmin (lmin a.level b.level) c.level with
+  | none => mk l a b c
+  | some m =>
+    if l < m then mk l a b c
+    else
+      mk m
+        (compose l (childAt a m .t) (childAt b m .t) (childAt c m .t))
+        (compose l (childAt a m .u) (childAt b m .u) (childAt c m .u))
+        (compose l (childAt a m .f) (childAt b m .f) (childAt c m .f))
+termination_by a.size + b.size + c.size
+decreasing_by
+  all_goals
+    have hf := childAt_size_le a m
+    have hg := childAt_size_le b m
+    have hh := childAt_size_le c m
+    rcases lmin_eq_some hl with h12 | h3
+    · rcases lmin_eq_some h12 with h1 | h2
+      · have h1' := childAt_size_lt a m
+        first
+          | (have := h1' .t h1; have := hg .t; have := hh .t; omega)
+          | (have := h1' .u h1; have := hg .u; have := hh .u; omega)
+          | (have := h1' .f h1; have := hg .f; have := hh .f; omega)
+      · have h2' := childAt_size_lt b m
+        first
+          | (have := h2' .t h2; have := hf .t; have := hh .t; omega)
+          | (have := h2' .u h2; have := hf .u; have := hh .u; omega)
+          | (have := h2' .f h2; have := hf .f; have := hh .f; omega)
+    · have h3' := childAt_size_lt c m
+      first
+        | (have := h3' .t h3; have := hf .t; have := hg .t; omega)
+        | (have := h3' .u h3; have := hf .u; have := hg .u; omega)
+        | (have := h3' .f h3; have := hf .f; have := hg .f; omega)
+
+/-- rebuild a tree for a new order; `π` maps old levels to new levels -/
+def reorderTree (π : Nat → Nat) : TD → TD
+  | leaf v => leaf v
+  | node l a b c => compose (π l) (reorderTree π a) (reorderTree π b) (reorderTree π c)
 
 /-! ## `eval_edge`: the choices vector with sixteen 2-bit fields per `u32` block -/
 
